@@ -467,3 +467,26 @@ fn verif_reset_statics() {
     }
     clock::set(0, 0, 0);
 }
+
+/// Unprivileged UDP over IPv6: bound to source address / source port, hop limit = probe ttl, payload of
+/// (packet size - 48) bytes to the target and the probe's destination port.
+#[kani::proof]
+#[kani::unwind(45)]
+fn c11_v6_dispatch_udp_unprivileged() {
+    let mut ipv6 = any_ipv6_cfg(Protocol::Udp, 57, false);
+    ipv6.privilege_mode = PrivilegeMode::Unprivileged;
+    let probe = any_probe(Flags::empty());
+    unsafe { EXPECT.active = false };
+    let mut s = HSock;
+    let (ttl, sp, dp) = (probe.ttl.0, probe.src_port.0, probe.dest_port.0);
+    let r = ipv6.dispatch_udp_probe(&mut s, probe);
+    assert!(r.is_ok());
+    let local = SocketAddr::new(IpAddr::V6(ipv6.src_addr), sp);
+    let remote = SocketAddr::new(IpAddr::V6(ipv6.dest_addr), dp);
+    unsafe {
+        assert!(sockstate::NEW_CALLS == 1);
+        assert!(sockstate::BIND_ADDR == Some(local), "bound to source address and source port");
+        assert!(sockstate::HOPS_SET == Some(ttl), "hop limit = probe ttl");
+        assert!(sockstate::SEND_CALLS == 1 && sockstate::SEND_ADDR == Some(remote), "sent to the target and destination port");
+    }
+}
